@@ -231,10 +231,71 @@ def gen_scenario(rng, sid, pf):
                     c["proc"]["after"][tci] = 3
     scn = {"id": sid, "nif": nif, "types": types, "comps": comps, "loaderFail": rng.random() < pf.p_loader_fail,
            "regorder": list(range(len(comps)))}
+    if rng.random() < pf.p_valid:
+        make_valid(rng, scn)
     if rng.random() < pf.p_fault:
         add_faults(rng, scn, rng.randint(*pf.n_faults))
     rng.shuffle(scn["regorder"])
     return scn
+
+
+def py_candidates(scn, hci, p):
+    """rough candidate set (generator steering only; never used for a verdict)"""
+    types, comps = scn["types"], scn["comps"]
+    sel, tgt = p["sel"], p["target"]
+
+    def type_ok(ci):
+        t = types[comps[ci]["type"]]
+        if tgt[0] == "ptr":
+            return comps[ci]["type"] == tgt[1]
+        if tgt[0] == "iface":
+            return tgt[1] in t["ifaces"]
+        return tgt[0] == "any"
+
+    if tgt[0] == "other":
+        return []
+    if sel[0] == "type":
+        cs = [ci for ci in range(len(comps)) if type_ok(ci)]
+    elif sel[0] == "name":
+        if p["slice"]:
+            return []
+        cs = [ci for ci in range(len(comps)) if regname_of(scn, ci) == sel[1] and type_ok(ci)]
+    else:
+        cs = []
+        for ci in range(len(comps)):
+            t = types[comps[ci]["type"]]
+            ms = dict(t["methods"])
+            if not type_ok(ci) or sel[1] not in ms:
+                continue
+            if sel[2] is None:
+                if not ms[sel[1]]:
+                    cs.append(ci)
+            elif "*" in sel[2] or (ms[sel[1]] and comps[ci]["rets"].get(sel[1]) in sel[2]):
+                cs.append(ci)
+    cs = [ci for ci in cs if ci != hci]
+    if p["quals"] is not None:
+        cs = [ci for ci in cs if types[comps[ci]["type"]]["qual"] and comps[ci]["qual"] in p["quals"]]
+    return cs
+
+
+def make_valid(rng, scn):
+    """make required points satisfiable (mostly-valid stream): relax what cannot be satisfied"""
+    types, comps = scn["types"], scn["comps"]
+    for ti, t in enumerate(types):
+        holders = [ci for ci, c in enumerate(comps) if c["type"] == ti]
+        for p in t["fields"]:
+            if not p["required"]:
+                continue
+            if all(py_candidates(scn, h, p) for h in holders):
+                continue
+            if p["quals"] is not None:
+                p["quals"] = None
+                if all(py_candidates(scn, h, p) for h in holders):
+                    continue
+            p["required"] = False
+        for cp in t["cfields"]:
+            if cp["required"]:
+                cp["sat"] = True
 
 
 def fault_sites(scn):
@@ -702,3 +763,148 @@ def evaluate(ctx, scns, tag, check_module, defs, lookups="all", shard=150):
     except OSError:
         pass
     return by_id, out, facts
+
+
+# ------------------------------------------------------------------------------------------------
+# generic check runner for the wiring family
+
+def scenario_stats(scns, by_id):
+    oc = {}
+    sizes = {}
+    kinds = {}
+    for s in scns:
+        r = by_id.get(s["id"])
+        if r is None:
+            continue
+        o = r["observation"]["outcome"]
+        oc[o] = oc.get(o, 0) + 1
+        n = len(s["comps"])
+        sizes[n] = sizes.get(n, 0) + 1
+        for t in s["types"]:
+            for p in t["fields"]:
+                k = p["sel"][0] + ("-slice" if p["slice"] else "") + ":" + p["target"][0]
+                kinds[k] = kinds.get(k, 0) + 1
+    return {"outcomes": oc, "components_per_scenario": sizes, "point_kinds": kinds}
+
+
+def shape_hash(s):
+    return vlib.stable_hash({"types": s["types"], "comps": s["comps"], "lf": s["loaderFail"]})
+
+
+def run_family(ctx, check_module, make_scenarios, rule, assumptions=None, classify_known=None, extra_corpus=None,
+               post=None):
+    """make_scenarios(ctx, tier, widen=False) -> list of scenarios (ids unique)."""
+    static_ok = vlib.static_obligations(ctx)
+    defs = {"M": "mismatches", "V": "violations", "NT": "count_nontrivial"}
+    if ctx.replay:
+        r = json.load(open(ctx.replay))
+        scns = [r["case"]["scenario"]]
+    else:
+        scns = list(extra_corpus or []) + make_scenarios(ctx, ctx.tier)
+        for i, s in enumerate(scns):
+            s["id"] = i
+    by_id, out, facts = evaluate(ctx, scns, "main", check_module, defs)
+    M, V, nt = out["M"], out["V"], sum(out["NT"])
+    st = scenario_stats(scns, by_id)
+    ctx.log("cases=%d mismatches=%d violations=%d nontrivial=%d outcomes=%s" % (len(by_id), len(M), len(V), nt, st["outcomes"]))
+    size = lambda i: len(by_id[i]["scenario"]["comps"]) if i in by_id else 0
+    M.sort(key=size)
+    V.sort(key=size)
+
+    def widen():
+        more = make_scenarios(ctx, "widen" if ctx.quick() else "widen2")
+        for i, s in enumerate(more):
+            s["id"] = i
+        b2, o2, _ = evaluate(ctx, more, "widen", check_module, defs)
+        return [b2[i] for i in sorted(o2["V"], key=lambda i: len(b2[i]["scenario"]["comps"]))[:3]]
+
+    def shrink(case):
+        return shrink_scenario(ctx, case, check_module)
+
+    distinct = len({shape_hash(s) for s in scns})
+    samples = [by_id[i] for i in sorted(by_id)[:1]]
+    cov = {
+        "evaluations": len(by_id),
+        "distinct_nontrivial": min(nt, distinct),
+        "rule": rule,
+        "samples": samples,
+        "traces_validated_against_impl": len(by_id),
+        "input_distribution": st,
+        "nontrivial_cases": nt,
+        "distinct_cases": distinct,
+    }
+    if post:
+        post(ctx, by_id, cov)
+    return vlib.decide(ctx, static_ok, by_id, M, V, cov, classify_known=classify_known, widen=widen, shrink=shrink,
+                       assumptions=assumptions)
+
+
+def shrink_scenario(ctx, case, check_module, rounds=12):
+    """greedy: drop fields / components while the oracle still fails"""
+    import copy
+    cur = case
+    defs = {"V": "violations"}
+    for _ in range(rounds):
+        s = cur["scenario"]
+        cands = []
+        for ti, t in enumerate(s["types"]):
+            for k in range(len(t["fields"])):
+                c = copy.deepcopy(s)
+                del c["types"][ti]["fields"][k]
+                cands.append(c)
+            for k in range(len(t["cfields"])):
+                c = copy.deepcopy(s)
+                del c["types"][ti]["cfields"][k]
+                cands.append(c)
+        for ci in range(len(s["comps"])):
+            c = drop_comp(s, ci)
+            if c is not None:
+                cands.append(c)
+        if not cands:
+            return cur
+        for i, c in enumerate(cands):
+            c["id"] = i
+        try:
+            b2, o2, _ = evaluate(ctx, cands, "shrink", check_module, defs)
+        except Exception:
+            return cur
+        if not o2["V"]:
+            return cur
+        cur = b2[min(o2["V"], key=lambda i: len(json.dumps(b2[i]["scenario"])))]
+    return cur
+
+
+def drop_comp(s, ci):
+    """remove component instance ci if nothing names it by index (processor tables) — types stay"""
+    import copy
+    c = copy.deepcopy(s)
+    for comp in c["comps"]:
+        if comp["proc"] is not None:
+            for tab in ("early", "after"):
+                if ci in comp["proc"][tab] or str(ci) in comp["proc"][tab]:
+                    return None
+            if any(k == ci for _, k in comp["proc"]["faults"]):
+                return None
+    del c["comps"][ci]
+
+    def remap(k):
+        return k - 1 if k > ci else k
+    for comp in c["comps"]:
+        if comp["proc"] is not None:
+            comp["proc"]["early"] = {remap(int(k)): v for k, v in comp["proc"]["early"].items()}
+            comp["proc"]["after"] = {remap(int(k)): v for k, v in comp["proc"]["after"].items()}
+            comp["proc"]["faults"] = [(ph, remap(k)) for ph, k in comp["proc"]["faults"]]
+    c["regorder"] = list(range(len(c["comps"])))
+    return c
+
+
+def std_scenarios(profiles):
+    """profiles: list of (Profile, quick count, thorough count)"""
+    def make(ctx, tier):
+        scns = []
+        for pf, nq, nt in profiles:
+            n = {"quick": nq, "thorough": nt, "widen": nq * 3, "widen2": nt * 2}[tier]
+            for _ in range(n):
+                scns.append(gen_scenario(ctx.rng, len(scns), pf))
+        return scns
+    return make
